@@ -83,7 +83,7 @@ def _typestate(ctx):
 def _removal_pairing(ctx):
     cell = ctx.index.get_class(K.SCHED, 'Cell')
     count = 0
-    for func in cell.methods.values():
+    for func in cell.live_methods():
         graph = None
         for sub in K.walk_no_nested(func.node):
             if not (isinstance(sub, ast.Call) and K.is_meth(sub, 'remove')
@@ -182,7 +182,7 @@ def _range_maintenance(ctx):
     group = index.get_class(K.SCHED, 'IdentityGroup')
     nz = N.Normaliser()
     # release: add only under ident < count
-    release = K.one([f for f in group.methods.values()
+    release = K.one([f for f in group.live_methods()
                      if K.func_calls_method(f, 'add')],
                     'IdentityGroup method adding to the pool')
     graph = ctx.cfg(release)
@@ -196,7 +196,7 @@ def _range_maintenance(ctx):
         ctx.ob('C05.3', release, node, ok,
                'pool.add dominated by %s' % N.show(want))
     # adjust
-    adjust = K.one([f for f in group.methods.values()
+    adjust = K.one([f for f in group.live_methods()
                     if f.name != '__init__' and any(
                         isinstance(s, ast.AugAssign) and
                         N.txt(s.target) == 'self.available'
@@ -257,7 +257,7 @@ def _range_maintenance(ctx):
     # revocation pass
     cell = index.get_class(K.SCHED, 'Cell')
     cands = []
-    for func in cell.methods.values():
+    for func in cell.live_methods():
         graph = ctx.cfg(func)
         for node in graph.nodes:
             for tgt, val, kind in K.assigns_attr(node, attr='identity'):
@@ -373,7 +373,7 @@ def _group_removal(ctx):
     cell = ctx.index.get_class(K.SCHED, 'Cell')
     nz = N.Normaliser()
     funcs = []
-    for func in cell.methods.values():
+    for func in cell.live_methods():
         for sub in K.walk_no_nested(func.node):
             if isinstance(sub, ast.Delete) and any(
                     isinstance(t, ast.Subscript) and
